@@ -464,7 +464,8 @@ func ParseWithIncarnationID(value, incarnationID string) (*Address, error) {
 //   - Only the "goakt" scheme is accepted (case-sensitive).
 //   - Port must be a base-10 integer.
 //   - Path may contain at most one '/' (to separate <parent>/<name>).
-//   - Raw IPv6 literals are not supported by this parser (use a hostname).
+//   - A raw IPv6 host is accepted in the un-bracketed form produced by String():
+//     the port is whatever follows the last ':'.
 //   - No semantic validation is performed. The canonical string carries no
 //     incarnation identifier, so the result has an empty IncarnationID and does
 //     not pass Validate; use ParseWithIncarnationID to restore a validatable
@@ -515,10 +516,13 @@ func Parse(addr string) (*Address, error) {
 		return nil, errors.New("address format is invalid")
 	}
 
-	host, portStr, ok := strings.Cut(hostPort, ":")
-	if !ok || strings.Contains(portStr, ":") {
+	// split at the last ':' so that a raw IPv6 host, which String() embeds
+	// un-bracketed ("::1:9000"), parses back to the same host and port
+	sep := strings.LastIndexByte(hostPort, ':')
+	if sep < 0 {
 		return nil, errors.New("address format is invalid")
 	}
+	host, portStr := hostPort[:sep], hostPort[sep+1:]
 
 	parsedPort, err := strconvx.ParseInt32(portStr)
 	if err != nil {
